@@ -173,7 +173,7 @@ impl Prop for P {
         let mut it = rest.split(';');
         let ops = parse_ops(it.next().unwrap().trim());
         let ranges: Vec<Vec<(u8, Vec<u8>)>> = it.next().unwrap().trim().split('/').map(|r| parse_calls(r.trim())).collect();
-        let out = exec_build("extend", "raw_loop", 0, 10_000, 2, &ops);
+        let out = exec_build("extend", "raw_loop", 0, drows(), dcols(), &ops);
         let bytes = out.bytes.unwrap();
         let f = Fst::new(bytes.clone()).unwrap();
         let map = fst::Map::new(bytes.clone()).unwrap();
